@@ -50,7 +50,12 @@ func (f *DelayFilter) Run(ctx context.Context) { //nolint:cyclop
 		case <-ctx.Done():
 			return
 		case <-f.push:
-			next := f.queue.peek().(timedChunk) //nolint:forcetypeassert
+			next, ok := f.queue.peek().(timedChunk)
+			if !ok {
+				// the chunk this notification is for has already been
+				// forwarded by the timer branch
+				continue
+			}
 			if !timer.Stop() {
 				<-timer.C
 			}
